@@ -168,6 +168,9 @@ func (t *tncSim) handle(f agwFrame) {
 		t.polls++
 		d := make([]byte, 4)
 		binary.LittleEndian.PutUint32(d, uint32(t.outstanding))
+		if sc.YBad > 0 && t.polls == 1 { // a malformed answer to a pending poll
+			d = make([]byte, []int{0, 0, 3, 8, 5}[sc.YBad])
+		}
 		t.send(agwFrame{Port: f.Port, Kind: 'Y', From: f.From, To: f.To, Data: d})
 		// the frames go out on the air: after a poll has seen them the count drops (R4: it stays
 		// >= 1 until one poll has reported it)
@@ -208,7 +211,8 @@ type c13Scn struct {
 	DropEvery int    `json:"drop_every"`       // the outstanding count drops by one after every n-th poll
 	HS        string `json:"hs,omitempty"`     // handshake variant
 	Digis     int    `json:"digis"`
-	Deep      bool   `json:"deep,omitempty"` // small scenario explored one deviation deeper from the established connection on, in every tier
+	Deep      bool   `json:"deep,omitempty"`  // small scenario explored one deviation deeper from the established connection on, in every tier
+	YBad      int    `json:"y_bad,omitempty"` // the first outstanding-frames poll is answered with a data field of 0 (1), 3 (2), 8 (3), 5 (4) bytes instead of 4
 	Mal       int    `json:"mal"`
 	MalWhen   int    `json:"mal_when,omitempty"` // malformed input arrives 0: once the registration was seen; 1: after OpenPortTCP returned, digested before the application dials; 2: on the established connection, while the application reads
 	Choices   []int  `json:"choices,omitempty"`
@@ -217,8 +221,8 @@ type c13Scn struct {
 func (s c13Scn) digis() []string { return []string{"LD5SK", "W1AW-1"}[:s.Digis] }
 
 func (s c13Scn) describe() string {
-	return fmt.Sprintf("%s port=%d frames=%v foreign=%d readbuf=%d late=%d onewrite=%v burst=%v seg=%s chunks=%v drop=%d hs=%s digis=%d mal=%d/%d",
-		s.Kind, s.Port, s.Frames, s.Foreign, s.ReadBuf, s.Late, s.OneWrite, s.Burst, c13SegName(s.Seg), s.Chunks, s.DropEvery, s.HS, s.Digis, s.Mal, s.MalWhen)
+	return fmt.Sprintf("%s port=%d frames=%v foreign=%d readbuf=%d late=%d onewrite=%v burst=%v seg=%s chunks=%v drop=%d hs=%s digis=%d mal=%d/%d ybad=%d",
+		s.Kind, s.Port, s.Frames, s.Foreign, s.ReadBuf, s.Late, s.OneWrite, s.Burst, c13SegName(s.Seg), s.Chunks, s.DropEvery, s.HS, s.Digis, s.Mal, s.MalWhen, s.YBad)
 }
 
 func c13SegName(i int) string {
@@ -567,7 +571,7 @@ func c13Judge(sc c13Scn, o *c13Obs, res *vs.Result) (out []c13Finding, poisoned 
 		}
 		add(cl, "%s", c)
 	}
-	if sc.Kind == "malformed" {
+	if sc.Kind == "malformed" || sc.YBad > 0 {
 		return // only "never crashes the process" is demanded for malformed TNC input
 	}
 	if res.Outcome != "done" {
@@ -746,6 +750,9 @@ func c13Scenarios(thorough bool) []c13Scn {
 		for d := 1; d <= 2; d++ {
 			out = append(out, c13Scn{Kind: "handshake", Port: port, HS: "plain", Digis: d, Frames: []int{7}, DropEvery: 1})
 		}
+	}
+	for yb := 1; yb <= 4; yb++ { // malformed answers to the host's own polls (Write pacing, Flush, Close)
+		out = append(out, c13Scn{Kind: "outbound", Chunks: []int{1}, DropEvery: 1, YBad: yb}, c13Scn{Kind: "outbound", Chunks: []int{300, 300}, DropEvery: 2, YBad: yb})
 	}
 	for m := 0; m <= 8; m++ {
 		out = append(out, c13Scn{Kind: "malformed", Mal: m, DropEvery: 1}, c13Scn{Kind: "malformed", Mal: m, Seg: 1, DropEvery: 1})
